@@ -16,12 +16,12 @@ TECHNIQUE = "Lean 4 kernel-decided theorems over the regenerated (finite) unit t
 LEVEL_TEXT = ("The unit table is regenerated from units.py on every run and the laws are theorems about that finite table decided by the Lean kernel "
               "(decide +kernel): forest shape, reciprocity and transitivity of factors (spec layer), refusal exactly across kinds, agreement of every "
               "factor with hand-written physical reference values to 1e-6, binary64 factors within 4 ulp of the exact ones, completeness of the "
-              "alternative-unit list, documented names = table names; the conversion walk, alternative list and equal-amount test are tied to the code by "
+              "alternative-unit list, documented names = table names; the equal-amount test (C12b): refused between a unit and none and across kinds for all values, between known units of one kind it is the exact comparison of value against value times the table factor at relative tolerance 1e-9 off a guard band of 2^-21 (binary64 error analysis), aliases and letter cases of one unit with equal values are equal amounts under every exact scaling, unknown units need the same name; the conversion walk, alternative list and equal-amount test are tied to the code by "
               "exhaustive bit-exact comparison over all pairs of names.")
 LEVEL_NOTE = ("Trusted: Lean kernel; translator for the table; reference constants hand-written in Props/C12.lean (US cup 236.5882365 ml, imperial pint "
               "568.26125 ml, lb 453.59237 g). Recognition of every name in any letter case/spacing/preposition is enumerated completely through the real "
               "compile() by the oracle and (once the parser model is tied in) by correspondence; the universal case-folding lemma is not yet a theorem.")
-LEAN_MODULES = ["RecipeGrid.Props.C12"]
+LEAN_MODULES = ["RecipeGrid.Props.C12", "RecipeGrid.Props.C12b"]
 SOURCES = ["recipe_grid/units.py", "recipe_grid/recipe.py", "recipe_grid/renderer/html.py", "recipe_grid/parser/grammar.peg"]
 EXHAUSTIVE = True
 RULE = ("complete enumeration: all ordered pairs of the unit names (conversion, both layers), every name (alternative list, rendering), every name x "
